@@ -14,7 +14,64 @@ def m_noop(I, a, k):
     return None
 
 
+_HASHFN = {}
+
+
+def hash_fn(name):
+    if name not in _HASHFN:
+        _HASHFN[name] = z3.Function("H_" + name, z3.StringSort(), z3.StringSort())
+    return _HASHFN[name]
+
+
+class HashObj(object):
+    """hashlib object: the digest is an uninterpreted function of the concatenated input."""
+
+    def __init__(self, name, size, buf):
+        self.name, self.size, self.buf = name, size, buf
+
+
+def mk_hash(name, size):
+    def m(I, a, k):
+        buf = as_sstr(a[0]).term if a else z3.StringVal("")
+        if a and isinstance(a[0], SBytes):
+            raise Undecided("hash of array-bytes")
+        if name == "blake2b" and "digest_size" in k:
+            return HashObj("blake2b_%d" % k["digest_size"], k["digest_size"], buf)
+        if k and name != "blake2b":
+            raise Undecided("hash constructor keywords")
+        return HashObj(name, size, buf)
+    return m
+
+
+def hash_attr(I, h, name):
+    from .interp import ModelFn
+
+    def update(I_, a, k):
+        d = a[0]
+        if isinstance(d, Opaque) or isinstance(d, SBytes):
+            raise Undecided("hash update with %r" % (d,))
+        h.buf = z3.Concat(h.buf, as_sstr(d).term)
+
+    def digest(I_, a, k):
+        out = z3.simplify(hash_fn(h.name)(h.buf))
+        I.path.fact(z3.Length(out) == h.size, "hash:%s output is %d bytes (uninterpreted function of its input)" % (h.name, h.size))
+        return SStr(out, True, h.size)
+
+    def copy(I_, a, k):
+        return HashObj(h.name, h.size, h.buf)
+    t = {"update": update, "digest": digest, "copy": copy}
+    if name in t:
+        return ModelFn("hash." + name, t[name])
+    if name == "digest_size":
+        return h.size
+    return NotImplemented
+
+
 def register(t):
+    import hashlib
+    t[hashlib.sha256] = mk_hash("sha256", 32)
+    t[hashlib.sha1] = mk_hash("sha1", 20)
+    t[hashlib.blake2b] = mk_hash("blake2b", 64)
     try:
         from allmydata.util import hashutil, log
         t[hashutil.timing_safe_compare] = m_timing_safe_compare
